@@ -222,10 +222,20 @@ pub struct Case {
     pub nsheets: u32,
     pub setup: Vec<Op>,
     pub edit: Edit,
+    /// a column record of sheet 0 spanning several columns (min, max), as an imported file has
+    #[serde(default)]
+    pub wide_col: Option<(i32, i32)>,
 }
 
 fn build(case: &Case) -> Option<UserModel<'static>> {
     let mut um = ops::new_user_model(case.nsheets);
+    if let Some((min, max)) = case.wide_col {
+        // the API only ever creates single-column records; files store runs of equal columns
+        // as one record, so the starting workbook gets one the way an import would leave it
+        let mut m = ironcalc_base::Model::from_bytes(&um.to_bytes(), "en").ok()?;
+        m.workbook.worksheets.get_mut(0)?.cols.push(ironcalc_base::types::Col { min, max, width: 25.0, custom_width: true, hidden: false, style: None });
+        um = UserModel::from_model(m);
+    }
     for op in &case.setup {
         let _ = guarded(|| ops::apply(&mut um, op)).ok()?;
     }
@@ -577,7 +587,7 @@ fn run_prop(ctx: &Ctx, prop: &'static str) -> Stats {
         let nsheets = 1 + (i % 2) as u32;
         // clean-room half: no links / auto-links (triggers of open findings); full half: everything
         let clean = !ctx.avoid.is_empty() && i % 2 == 0;
-        let case = Case { prop: prop.to_string(), nsheets, setup: gen_setup(&mut rng, nsheets, !clean), edit: gen_edit(&mut rng, prop, nsheets) };
+        let case = Case { prop: prop.to_string(), nsheets, setup: gen_setup(&mut rng, nsheets, !clean), edit: gen_edit(&mut rng, prop, nsheets), wide_col: if rng.gen_bool(0.25) { let a = rng.gen_range(1..=6); Some((a, a + rng.gen_range(1..=3))) } else { None } };
         if i < 2 {
             st.sample(json!({"setup": case.setup.iter().take(8).collect::<Vec<_>>(), "edit": case.edit}));
         }
